@@ -1,34 +1,58 @@
 use crate::mon::evidence::Tier;
 
 pub mod common;
+
+#[cfg(feature = "plonk-std")]
 pub mod c01;
+#[cfg(feature = "plonk-std")]
 pub mod c02;
+#[cfg(feature = "plonk-std")]
 pub mod c03;
+#[cfg(feature = "plonk-std")]
 pub mod c04;
+#[cfg(feature = "plonk-std")]
 pub mod c05;
+#[cfg(feature = "plonk-std")]
 pub mod c07;
+#[cfg(feature = "plonk-std")]
 pub mod c15;
+#[cfg(feature = "plonk-std")]
 pub mod c16;
+#[cfg(feature = "plonk-std")]
 pub mod c17;
+pub mod c18;
 pub mod c19;
+#[cfg(feature = "plonk-std")]
 pub mod c20;
 
-pub fn dispatch(id: &str, tier: Tier, seed: u64, _sub: Option<&str>) -> i32 {
-    match id {
-        "C01" => c01::run(tier, seed),
-        "C02" => c02::run(tier, seed),
-        "C03" => c03::run(tier, seed),
-        "C04" => c04::run(tier, seed),
-        "C05" => c05::run(tier, seed),
-        "C07" => c07::run(tier, seed),
-        "C15" => c15::run(tier, seed),
-        "C16" => c16::run(tier, seed),
-        "C17" => c17::run(tier, seed),
-        "C19" => c19::run(tier, seed),
-        "C20" => c20::run(tier, seed),
-        _ => {
-            eprintln!("unknown check {id}");
-            2
+pub fn dispatch(id: &str, tier: Tier, seed: u64, sub: Option<&str>) -> i32 {
+    if id == "C18" {
+        if let Some(s) = sub {
+            if s.starts_with("child:") {
+                return c18::child(s);
+            }
+        }
+        return c18::run(tier, seed);
+    }
+    if id == "C19" {
+        return c19::run(tier, seed);
+    }
+    #[cfg(feature = "plonk-std")]
+    {
+        match id {
+            "C01" => return c01::run(tier, seed),
+            "C02" => return c02::run(tier, seed),
+            "C03" => return c03::run(tier, seed),
+            "C04" => return c04::run(tier, seed),
+            "C05" => return c05::run(tier, seed),
+            "C07" => return c07::run(tier, seed),
+            "C15" => return c15::run(tier, seed),
+            "C16" => return c16::run(tier, seed),
+            "C17" => return c17::run(tier, seed),
+            "C20" => return c20::run(tier, seed),
+            _ => {}
         }
     }
+    eprintln!("unknown check {id}");
+    2
 }
